@@ -38,9 +38,8 @@ pub fn h_iterate() {
     while i < n {
         // distinct names: a per-entry prefix, one or two '-', optional nb revision
         let mut name = format!("p{}", i);
-        if sym::choose("two-dashes", 2) == 1 {
-            name.push_str("-x");
-        }
+        // a middle component that starts with a letter or with a digit (only the LAST '-' separates the version)
+        name.push_str(["", "-x", "-2.0"][sym::choose("two-dashes", 3)]);
         name.push('-');
         name.push_str(&sym::any_str("ver", "set:1.anb", 1, sym::bound(2, 3)));
         let dir = db.join(&name);
